@@ -3,6 +3,7 @@ import MotoModel.Model.LineTools
 import MotoModel.Spec.LineTools
 import MotoModel.Model.Tape
 import MotoModel.Spec.K7
+import MotoModel.Spec.Names
 import MotoModel.Model.DiskCli
 import MotoModel.Spec.Dos
 import MotoModel.Model.Basic
@@ -116,6 +117,12 @@ def handle (args : List String) : String :=
        if argv.any (fun a => a.any (fun c => c < 32 || c > 126)) || !Argparse.wellShaped t then "unmodelled"
        else showArgOut (if level == "known" then Argparse.parseKnown t argv else Argparse.cliParse t argv))
   | ["ping"] => "pong"
+  | ["names.tape", src] =>
+      let t := Spec.Names.tapeSource (uncp src)
+      " ".intercalate [cp t.name, cp t.ext, toString t.kind, toString t.mode, cp t.path]
+  | ["names.disk", src] =>
+      let t := Spec.Names.diskSource (uncp src)
+      " ".intercalate [cp t.name, cp t.ext, cp t.extWithOption, cp t.path]
   | "spec.nl" :: s :: i :: w :: files =>
       ";".intercalate ((Spec.specNl s.toNat! i.toNat! w.toNat! none ((files.map uncp).flatMap readlines)).map cp)
   | ["spec.tolisting", d, b] => hex (Spec.specToListing (if d == "1" then [13, 10] else [10]) (unhex b))
